@@ -71,6 +71,12 @@ def check_list(acc, desc, structural, repeat=False):
     try:
         if case.get("repeat"):
             cg.tx.supergates(c)  # an earlier call on the same object must not matter
+            if case["repeat"] == "edit":
+                flip = {"and": "or", "or": "and", "xor": "xnor", "xnor": "xor", "nand": "nor", "nor": "nand", "buf": "not", "not": "buf"}
+                for g in sorted(c.graph.nodes):
+                    if c.type(g) in flip:
+                        c.set_type(g, flip[c.type(g)])   # edit in place, then ask again
+                        break
         sgs = cg.tx.supergates(c)
     except Exception as e:  # noqa: BLE001
         acc.violation("list", f"raises:{common.exc_name(e)}", case, repr(e))
@@ -235,6 +241,7 @@ def run(job):
             check_super(acc, desc)
         if (_idx // job["of"]) % 16 == 0:
             check_list(acc, desc, structural, repeat=True)
+            check_list(acc, desc, structural, repeat="edit")
         acc.sample({"desc": desc})
         if acc.out_of_time():
             break
